@@ -210,6 +210,78 @@ func (s *Set) M__xor__(other Object) (Object, error) {
 	return ret, nil
 }
 
+// The in place operations change the set itself so that every
+// reference to it sees the result.  For an operand which isn't a set
+// they leave it to the plain operation to raise the TypeError.
+
+func (s *Set) M__iand__(other Object) (Object, error) {
+	b, ok := other.(*Set)
+	if !ok {
+		return NotImplemented, nil
+	}
+	for i := range s.items {
+		if _, ok := b.items[i]; !ok {
+			delete(s.items, i)
+		}
+	}
+	return s, nil
+}
+
+func (s *Set) M__ior__(other Object) (Object, error) {
+	b, ok := other.(*Set)
+	if !ok {
+		return NotImplemented, nil
+	}
+	for i := range b.items {
+		s.items[i] = SetValue{}
+	}
+	return s, nil
+}
+
+func (s *Set) M__isub__(other Object) (Object, error) {
+	b, ok := other.(*Set)
+	if !ok {
+		return NotImplemented, nil
+	}
+	for i := range b.items {
+		delete(s.items, i)
+	}
+	return s, nil
+}
+
+func (s *Set) M__ixor__(other Object) (Object, error) {
+	b, ok := other.(*Set)
+	if !ok {
+		return NotImplemented, nil
+	}
+	for i := range b.items {
+		if _, ok := s.items[i]; ok {
+			delete(s.items, i)
+		} else {
+			s.items[i] = SetValue{}
+		}
+	}
+	return s, nil
+}
+
+// A frozenset is immutable so its in place operations make a new set
+
+func (s *FrozenSet) M__iand__(other Object) (Object, error) {
+	return s.M__and__(other)
+}
+
+func (s *FrozenSet) M__ior__(other Object) (Object, error) {
+	return s.M__or__(other)
+}
+
+func (s *FrozenSet) M__isub__(other Object) (Object, error) {
+	return s.M__sub__(other)
+}
+
+func (s *FrozenSet) M__ixor__(other Object) (Object, error) {
+	return s.M__xor__(other)
+}
+
 // Check interface is satisfied
 var _ I__len__ = (*Set)(nil)
 var _ I__bool__ = (*Set)(nil)
